@@ -26,6 +26,7 @@ from nrel.hive.state.simulation_state.update.step_simulation_ops import (
     perform_driver_state_updates,
 )
 from nrel.hive.util.dict_ops import DictOps
+from nrel.hive.util import verif_hooks
 
 if TYPE_CHECKING:
     from nrel.hive.runner.environment import Environment
@@ -90,6 +91,10 @@ class StepSimulation(SimulationUpdateFunction):
         :return: updated simulation state, with reports, along with the (optionally) updated StepSimulation
         """
         sim_with_drivers_updated = perform_driver_state_updates(simulation_state, env)
+        if verif_hooks.ENABLED:
+            verif_hooks.emit(
+                "drivers", before=simulation_state, after=sim_with_drivers_updated, env=env
+            )
 
         i_stack, updated_i_gens = generate_instructions(
             self.ordered_instruction_generators, sim_with_drivers_updated, env
@@ -104,6 +109,15 @@ class StepSimulation(SimulationUpdateFunction):
             else:
                 final_instructions = (i,) + final_instructions
 
+        if verif_hooks.ENABLED:
+            verif_hooks.emit(
+                "instruction_stacks",
+                stacks=i_stack,
+                final=final_instructions,
+                generators=self.instruction_generator_order,
+                sim=sim_with_drivers_updated,
+                env=env,
+            )
         log_instructions(final_instructions, env, simulation_state.sim_time)
 
         # update drivers, update vehicles
@@ -116,6 +130,14 @@ class StepSimulation(SimulationUpdateFunction):
 
         # advance the simulation one time step
         sim_next_time_step = simulation_state_ops.tick(sim_vehicles_updated)
+        if verif_hooks.ENABLED:
+            verif_hooks.emit(
+                "tick",
+                instructed=sim_with_instructions,
+                before=sim_vehicles_updated,
+                after=sim_next_time_step,
+                env=env,
+            )
 
         updated_step_simulation = self.update_instruction_generators(updated_i_gens)
         return sim_next_time_step, updated_step_simulation
